@@ -1,7 +1,8 @@
 // go2lean: a deliberately dumb printer of a tiny subset of Go (uint64 straight-line
 // code, bits.Mul64/Add64, `if` with assignments or early return, constant-bound `for`,
-// and the 8-lane window kernels of ring/vec_ops.go) into Lean 4 definitions over the
-// word primitives of Lattigo/Word.lean.  It carries NO semantics of its own: each Go
+// the 8-lane window kernels of ring/vec_ops.go, the one-call SubRing wrappers of
+// ring/subring_ops.go, and the "tabulate" loop of ring.AutomorphismNTTIndex) into Lean 4
+// definitions over the word primitives of Lattigo/Word.lean.  It carries NO semantics of its own: each Go
 // operator is printed as the application of one Lean primitive.  On any construct
 // outside the subset it refuses (exit 2), so it can never silently mistranslate.
 //
@@ -58,6 +59,9 @@ type ctx struct {
 	// slice; k must equal laneIdx (a cross-lane reference is refused).
 	laneMode bool
 	laneIdx  int
+	// tabulate mode (AutomorphismNTTIndex): `int(e)` of a word expression is printed as `e`
+	// (two's complement: exact for + - * & and for use as a shift count / BitReverse64 length)
+	allowInt bool
 }
 
 func (c *ctx) fresh() string { c.tmp++; return fmt.Sprintf("t%d_", c.tmp) }
@@ -195,8 +199,21 @@ func (c *ctx) call(x *ast.CallExpr) string {
 		return "(add64 " + strings.Join(args, " ") + ")"
 	case "bits.Len64":
 		return "(len64 " + strings.Join(args, " ") + ")"
+	case "utils.BitReverse64":
+		if len(args) != 2 {
+			refuse("%s: utils.BitReverse64 arity", pos(x))
+		}
+		return "(bitRev64 " + strings.Join(args, " ") + ")"
 	case "uint64":
 		// conversion of an already-unsigned word expression: identity on the model
+		if len(args) != 1 {
+			refuse("%s: conversion arity", pos(x))
+		}
+		return args[0]
+	case "int":
+		if !c.allowInt || len(args) != 1 {
+			refuse("%s: conversion to int not supported here", pos(x))
+		}
 		return args[0]
 	}
 	if _, ok := c.known[name]; ok {
@@ -829,6 +846,593 @@ func windowBase(e ast.Expr, jv string) string {
 	return sl.Name
 }
 
+// ---- SubRing wrappers (ring/subring_ops.go) ----
+
+// subRingFields are the receiver fields a wrapper may hand to its kernel, with their kinds.
+var subRingFields = map[string]string{"Modulus": "word", "MRedConstant": "word", "BRedConstant": "pair"}
+
+type wrapperMeta struct {
+	Method string   `json:"method"`
+	Kernel string   `json:"kernel"`
+	Args   []string `json:"args"`
+	Slices int      `json:"slices"`
+	Words  int      `json:"words"`
+}
+
+// translateWrapper handles `func (s *SubRing) Name(params) { kernel(args…) }`: the body must be ONE
+// call statement.  If the callee is one of the translated kernels, every argument must be a method
+// parameter or s.Modulus / s.MRedConstant / s.BRedConstant, of the kind the kernel expects at that
+// position; the result is the lane-level Lean definition.  If the callee is `s.ntt.M(params…)` the
+// method is recorded as a delegation (NTT entry points, modelled by Model/NTT.lean).  Anything else
+// is refused.
+func translateWrapper(fd *ast.FuncDecl, kernels map[string]kernelMeta) (lean string, meta wrapperMeta, delegate string) {
+	name := fd.Name.Name
+	if fd.Recv == nil || len(fd.Recv.List) != 1 || len(fd.Recv.List[0].Names) != 1 {
+		refuse("%s: wrapper %s: receiver", pos(fd), name)
+	}
+	st, ok := fd.Recv.List[0].Type.(*ast.StarExpr)
+	if !ok {
+		refuse("%s: wrapper %s: receiver is not *SubRing", pos(fd), name)
+	}
+	if id, ok := st.X.(*ast.Ident); !ok || id.Name != "SubRing" {
+		refuse("%s: wrapper %s: receiver is not *SubRing", pos(fd), name)
+	}
+	recv := fd.Recv.List[0].Names[0].Name
+	if fd.Type.Results != nil && len(fd.Type.Results.List) != 0 {
+		refuse("%s: wrapper %s has results", pos(fd), name)
+	}
+	c := &ctx{pairs: map[string]bool{}, windows: map[string]string{}}
+	ps := params(fd, c)
+	kindOf := map[string]string{}
+	var slices, words []string
+	for _, p := range ps {
+		if _, dup := kindOf[p.name]; dup || p.name == recv {
+			refuse("%s: wrapper %s: parameter %s", pos(fd), name, p.name)
+		}
+		if _, clash := subRingFields[p.name]; clash {
+			refuse("%s: wrapper %s: parameter %s is named like a receiver field", pos(fd), name, p.name)
+		}
+		kindOf[p.name] = p.kind
+		switch p.kind {
+		case "slice":
+			slices = append(slices, p.name)
+		case "word":
+			words = append(words, p.name)
+		default:
+			refuse("%s: wrapper %s: parameter kind %s", pos(fd), name, p.kind)
+		}
+	}
+	if fd.Body == nil || len(fd.Body.List) != 1 {
+		refuse("%s: wrapper %s: body is not a single call", pos(fd), name)
+	}
+	es, ok := fd.Body.List[0].(*ast.ExprStmt)
+	if !ok {
+		refuse("%s: wrapper %s: body is not a single call", pos(fd), name)
+	}
+	call, ok := es.X.(*ast.CallExpr)
+	if !ok || call.Ellipsis != token.NoPos {
+		refuse("%s: wrapper %s: body is not a single call", pos(fd), name)
+	}
+	meta = wrapperMeta{Method: name, Slices: len(slices), Words: len(words)}
+	switch f := call.Fun.(type) {
+	case *ast.SelectorExpr:
+		// s.ntt.M(p1, p2): parameters passed through unchanged, in order
+		inner, ok := f.X.(*ast.SelectorExpr)
+		if !ok {
+			refuse("%s: wrapper %s: callee not supported", pos(call), name)
+		}
+		r, ok := inner.X.(*ast.Ident)
+		if !ok || r.Name != recv || inner.Sel.Name != "ntt" {
+			refuse("%s: wrapper %s: callee not supported", pos(call), name)
+		}
+		if len(call.Args) != len(ps) {
+			refuse("%s: wrapper %s: delegation does not pass its parameters through", pos(call), name)
+		}
+		for i, a := range call.Args {
+			id, ok := a.(*ast.Ident)
+			if !ok || id.Name != ps[i].name {
+				refuse("%s: wrapper %s: delegation does not pass its parameters through", pos(call), name)
+			}
+		}
+		return "", meta, recv + ".ntt." + f.Sel.Name
+	case *ast.Ident:
+		km, ok := kernels[f.Name]
+		if !ok {
+			refuse("%s: wrapper %s calls %q, which is not a translated kernel", pos(call), name, f.Name)
+		}
+		meta.Kernel = f.Name
+		if len(call.Args) != len(km.Params) {
+			refuse("%s: wrapper %s: %d arguments for kernel %s with %d parameters", pos(call), name, len(call.Args), f.Name, len(km.Params))
+		}
+		var largs []string
+		for i, a := range call.Args {
+			want := km.Params[i][strings.Index(km.Params[i], ":")+1:]
+			var txt, got, lean string
+			switch x := a.(type) {
+			case *ast.Ident:
+				k, ok := kindOf[x.Name]
+				if !ok {
+					refuse("%s: wrapper %s: argument %s is not a parameter", pos(a), name, x.Name)
+				}
+				txt, got, lean = x.Name, k, ident(x.Name)
+			case *ast.SelectorExpr:
+				r, ok := x.X.(*ast.Ident)
+				if !ok || r.Name != recv {
+					refuse("%s: wrapper %s: argument not supported", pos(a), name)
+				}
+				k, ok := subRingFields[x.Sel.Name]
+				if !ok {
+					refuse("%s: wrapper %s: receiver field %s not supported", pos(a), name, x.Sel.Name)
+				}
+				txt, got, lean = "s."+x.Sel.Name, k, x.Sel.Name
+			default:
+				refuse("%s: wrapper %s: argument %T not supported", pos(a), name, a)
+			}
+			if got != want {
+				refuse("%s: wrapper %s: argument %s is a %s where kernel %s expects a %s", pos(a), name, txt, got, f.Name, want)
+			}
+			meta.Args = append(meta.Args, txt)
+			largs = append(largs, lean)
+		}
+		// lane-level definition: slices become the scalar at the lane's index
+		lp := ""
+		for _, p := range ps {
+			lp += " (" + ident(p.name) + " : Nat)"
+		}
+		lean = fmt.Sprintf("/-- `func (s *SubRing) %s(%s) { %s(%s) }` -/\ndef SubRing_%s_lane (Modulus MRedConstant : Nat) (BRedConstant : Nat × Nat)%s : Nat :=\n  %s_lane %s\n",
+			name, paramList(ps), f.Name, strings.Join(meta.Args, ", "), name, lp, f.Name, strings.Join(largs, " "))
+		return lean, meta, ""
+	}
+	refuse("%s: wrapper %s: callee not supported", pos(call), name)
+	return
+}
+
+func paramList(ps []param) string {
+	out := make([]string, len(ps))
+	for i, p := range ps {
+		out[i] = p.name
+		if p.kind == "slice" {
+			out[i] += " []uint64"
+		} else {
+			out[i] += " uint64"
+		}
+	}
+	return strings.Join(out, ", ")
+}
+
+func leanStrList(xs []string) string {
+	q := make([]string, len(xs))
+	for i, x := range xs {
+		q[i] = strconv.Quote(x)
+	}
+	return "[" + strings.Join(q, ", ") + "]"
+}
+
+// translateSubRingOps prints Gen/SubRingOps.lean from ring/subring_ops.go.
+//
+// Uniform calling convention of the generated tables `subRingTable3/2` (it is the convention of
+// Model/Vec.lean's `Vec.op`): the slice parameters of a method, IN GO ORDER, are x1 x2 x3 for a
+// 3-slice method and x1 x3 for a 2-slice method (the last slice is the output; its previous content
+// is what accumulating kernels read); the word parameters, in Go order, are s0 s1.
+func translateSubRingOps(file *ast.File, kernels map[string]kernelMeta) (string, []wrapperMeta, [][2]string) {
+	var sb strings.Builder
+	var metas []wrapperMeta
+	var delegates [][2]string
+	var defs []string
+	type disp struct{ name, app string }
+	var disps []disp
+	seen := map[string]bool{}
+	for _, d := range file.Decls {
+		fd, ok := d.(*ast.FuncDecl)
+		if !ok {
+			refuse("%s: ring/subring_ops.go: declaration %T not supported", pos(d), d)
+		}
+		if fd.Recv == nil {
+			refuse("%s: ring/subring_ops.go: %s is not a SubRing method", pos(fd), fd.Name.Name)
+		}
+		if seen[fd.Name.Name] {
+			refuse("%s: duplicate method %s", pos(fd), fd.Name.Name)
+		}
+		seen[fd.Name.Name] = true
+		lean, m, del := translateWrapper(fd, kernels)
+		if del != "" {
+			delegates = append(delegates, [2]string{m.Method, del})
+			continue
+		}
+		metas = append(metas, m)
+		defs = append(defs, lean)
+		// dispatcher application following the calling convention
+		c := &ctx{pairs: map[string]bool{}, windows: map[string]string{}}
+		ps := params(fd, c)
+		var xs []string
+		switch m.Slices {
+		case 3:
+			xs = []string{"x1", "x2", "x3"}
+		case 2:
+			xs = []string{"x1", "x3"}
+		default:
+			refuse("%s: wrapper %s has %d slice parameters (2 or 3 supported)", pos(fd), m.Method, m.Slices)
+		}
+		if m.Words > 2 {
+			refuse("%s: wrapper %s has %d word parameters (at most 2 supported)", pos(fd), m.Method, m.Words)
+		}
+		ws := []string{"s0", "s1"}
+		app := ""
+		si, wi := 0, 0
+		for _, p := range ps {
+			if p.kind == "slice" {
+				app += " " + xs[si]
+				si++
+			} else {
+				app += " " + ws[wi]
+				wi++
+			}
+		}
+		disps = append(disps, disp{m.Method, app})
+	}
+	if len(metas) == 0 {
+		refuse("ring/subring_ops.go: no kernel wrapper found")
+	}
+	sb.WriteString("/-- the SubRing wrappers of ring/subring_ops.go: (method, kernel, the kernel's actual arguments) -/\n")
+	sb.WriteString("def subRingOps : List (String × String × List String) := [\n")
+	for i, m := range metas {
+		if i > 0 {
+			sb.WriteString(",\n")
+		}
+		fmt.Fprintf(&sb, "  (%s, %s, %s)", strconv.Quote(m.Method), strconv.Quote(m.Kernel), leanStrList(m.Args))
+	}
+	sb.WriteString("]\n\n")
+	sb.WriteString("/-- SubRing methods that delegate to the NTT object (modelled by Model/NTT.lean): (method, callee) -/\n")
+	sb.WriteString("def subRingDelegates : List (String × String) := [")
+	for i, d := range delegates {
+		if i > 0 {
+			sb.WriteString(", ")
+		}
+		fmt.Fprintf(&sb, "(%s, %s)", strconv.Quote(d[0]), strconv.Quote(d[1]))
+	}
+	sb.WriteString("]\n\n")
+	for _, d := range defs {
+		sb.WriteString(d + "\n")
+	}
+	// executable tables, by number of slice parameters.  (A `match name with | "Add" => …` over 36
+	// string literals would be the obvious dispatcher; it is avoided on purpose: Lean's equation
+	// compiler / defeq checker are pathologically slow on it.  Membership in a list is cheap.)
+	for _, ar := range []int{3, 2} {
+		ty := "Nat → Nat → Nat → Nat"
+		if ar == 2 {
+			ty = "Nat → Nat → Nat"
+		}
+		fmt.Fprintf(&sb, "/-- the wrappers with %d slice parameters: (method, one lane as a function of the slices' words in Go\n    order); the word parameters of the method, in Go order, are `s0 s1` -/\n", ar)
+		fmt.Fprintf(&sb, "def subRingTable%d (Modulus MRedConstant : Nat) (BRedConstant : Nat × Nat) (s0 s1 : Nat) :\n    List (String × (%s)) := [\n", ar, ty)
+		first := true
+		var nm []string
+		for i, m := range metas {
+			if m.Slices != ar {
+				continue
+			}
+			if !first {
+				sb.WriteString(",\n")
+			}
+			first = false
+			bind := "x1 x2 x3"
+			if ar == 2 {
+				bind = "x1 x3"
+			}
+			fmt.Fprintf(&sb, "  (%s, fun %s => SubRing_%s_lane Modulus MRedConstant BRedConstant%s)", strconv.Quote(m.Method), bind, m.Method, disps[i].app)
+			nm = append(nm, m.Method)
+		}
+		sb.WriteString("]\n\n")
+		fmt.Fprintf(&sb, "def subRingNames%d : List String := %s\n\n", ar, leanStrList(nm))
+		fmt.Fprintf(&sb, "theorem subRingTable%d_names (Modulus MRedConstant : Nat) (BRedConstant : Nat × Nat) (s0 s1 : Nat) :\n    (subRingTable%d Modulus MRedConstant BRedConstant s0 s1).map (·.1) = subRingNames%d := rfl\n\n", ar, ar, ar)
+	}
+	return sb.String(), metas, delegates
+}
+
+// ---- tabulate functions (ring.AutomorphismNTTIndex) ----
+
+// usesIdent reports whether identifier `name` occurs in n.
+func usesIdent(n ast.Node, name string) bool {
+	found := false
+	ast.Inspect(n, func(m ast.Node) bool {
+		if id, ok := m.(*ast.Ident); ok && id.Name == name {
+			found = true
+		}
+		return true
+	})
+	return found
+}
+
+// isErrorReturn recognises `return nil, fmt.Errorf(…)`.
+func isErrorReturn(s ast.Stmt) bool {
+	r, ok := s.(*ast.ReturnStmt)
+	if !ok || len(r.Results) != 2 {
+		return false
+	}
+	if id, ok := r.Results[0].(*ast.Ident); !ok || id.Name != "nil" {
+		return false
+	}
+	call, ok := r.Results[1].(*ast.CallExpr)
+	if !ok {
+		return false
+	}
+	sel, ok := call.Fun.(*ast.SelectorExpr)
+	if !ok {
+		return false
+	}
+	p, ok := sel.X.(*ast.Ident)
+	return ok && p.Name == "fmt" && sel.Sel.Name == "Errorf"
+}
+
+// translateTabulate handles a function of the shape
+//
+//	func F(words…) (out []uint64, err error) {
+//	    { if cond { return nil, fmt.Errorf(…) } | var x,… uint64 | x := e | x = e }*
+//	    out = make([]uint64, N)            // N a parameter
+//	    { x = e }*
+//	    for i := 0; i < N; i++ { { x = e }* ; out[i] = e }
+//	    return
+//	}
+//
+// and prints `def F (words…) : Option (List Nat)` (`none` = an error return).  The loop is a
+// "tabulate": every scalar assigned in its body is assigned there before it is read (no value is
+// carried from one iteration to the next), nothing follows the loop but the bare return, and `out`
+// is only written, at index `i`; so entry `i` of the result is the value of the last right-hand side
+// as a function of `i`: `(List.range N).map fun i => …`.  Everything else is refused.
+func translateTabulate(fd *ast.FuncDecl, known map[string]fnInfo) string {
+	name := fd.Name.Name
+	c := &ctx{known: known, pairs: map[string]bool{}, windows: map[string]string{}, allowInt: true}
+	ps := params(fd, c)
+	for _, p := range ps {
+		if p.kind != "word" {
+			refuse("%s: %s: non-word parameter", pos(fd), name)
+		}
+	}
+	rs := fd.Type.Results
+	if rs == nil || len(rs.List) != 2 || len(rs.List[0].Names) != 1 || len(rs.List[1].Names) != 1 {
+		refuse("%s: %s: results must be (out []uint64, err error)", pos(fd), name)
+	}
+	if at, ok := rs.List[0].Type.(*ast.ArrayType); !ok || at.Len != nil {
+		refuse("%s: %s: first result must be []uint64", pos(fd), name)
+	} else if el, ok := at.Elt.(*ast.Ident); !ok || el.Name != "uint64" {
+		refuse("%s: %s: first result must be []uint64", pos(fd), name)
+	}
+	if id, ok := rs.List[1].Type.(*ast.Ident); !ok || id.Name != "error" {
+		refuse("%s: %s: second result must be error", pos(fd), name)
+	}
+	outv := rs.List[0].Names[0].Name
+	errv := rs.List[1].Names[0].Name
+	const sep = "\n  "
+	body := ""
+	lenVar := ""
+	list := fd.Body.List
+	i := 0
+	for ; i < len(list); i++ {
+		s := list[i]
+		if usesIdent(s, errv) {
+			refuse("%s: %s: use of the error result", pos(s), name)
+		}
+		if _, ok := s.(*ast.ForStmt); ok {
+			break
+		}
+		switch x := s.(type) {
+		case *ast.IfStmt:
+			if x.Else != nil || x.Init != nil || len(x.Body.List) != 1 || !isErrorReturn(x.Body.List[0]) {
+				refuse("%s: %s: only `if cond { return nil, fmt.Errorf(…) }` is supported", pos(s), name)
+			}
+			if usesIdent(x.Cond, outv) {
+				refuse("%s: %s: output slice read", pos(s), name)
+			}
+			body += "if " + c.expr(x.Cond) + " then none else" + sep
+		case *ast.DeclStmt:
+			body += c.stmts([]ast.Stmt{s}, "", sep)
+		case *ast.AssignStmt:
+			if len(x.Lhs) == 1 && len(x.Rhs) == 1 {
+				if id, ok := x.Lhs[0].(*ast.Ident); ok && id.Name == outv {
+					// out = make([]uint64, N)
+					call, ok := x.Rhs[0].(*ast.CallExpr)
+					if !ok || x.Tok != token.ASSIGN || len(call.Args) != 2 || lenVar != "" {
+						refuse("%s: %s: output slice must be set once by make([]uint64, N)", pos(s), name)
+					}
+					if f, ok := call.Fun.(*ast.Ident); !ok || f.Name != "make" {
+						refuse("%s: %s: output slice must be set once by make([]uint64, N)", pos(s), name)
+					}
+					if at, ok := call.Args[0].(*ast.ArrayType); !ok || at.Len != nil {
+						refuse("%s: %s: make of a non-slice", pos(s), name)
+					} else if el, ok := at.Elt.(*ast.Ident); !ok || el.Name != "uint64" {
+						refuse("%s: %s: make of a non-[]uint64", pos(s), name)
+					}
+					n, ok := call.Args[1].(*ast.Ident)
+					if !ok {
+						refuse("%s: %s: make length must be a parameter", pos(s), name)
+					}
+					isParam := false
+					for _, p := range ps {
+						if p.name == n.Name {
+							isParam = true
+						}
+					}
+					if !isParam {
+						refuse("%s: %s: make length must be a parameter", pos(s), name)
+					}
+					lenVar = n.Name
+					continue
+				}
+			}
+			if usesIdent(s, outv) {
+				refuse("%s: %s: output slice used outside the loop", pos(s), name)
+			}
+			for _, l := range x.Lhs {
+				if id, ok := l.(*ast.Ident); ok && (id.Name == lenVar && lenVar != "") {
+					refuse("%s: %s: length variable reassigned", pos(s), name)
+				}
+				for _, p := range ps {
+					if id, ok := l.(*ast.Ident); ok && id.Name == p.name {
+						refuse("%s: %s: parameter %s reassigned", pos(s), name, p.name)
+					}
+				}
+			}
+			body += c.assign(x, sep)
+		default:
+			refuse("%s: %s: statement %T not supported", pos(s), name, s)
+		}
+	}
+	if i >= len(list) || lenVar == "" {
+		refuse("%s: %s: expected `out = make([]uint64, N)` followed by a loop", pos(fd), name)
+	}
+	loop := list[i].(*ast.ForStmt)
+	rest := list[i+1:]
+	if len(rest) != 1 {
+		refuse("%s: %s: the loop must be followed by the bare return only", pos(loop), name)
+	}
+	if r, ok := rest[0].(*ast.ReturnStmt); !ok || len(r.Results) != 0 {
+		refuse("%s: %s: the loop must be followed by the bare return only", pos(loop), name)
+	}
+	// header `for i := 0; i < N; i++`
+	as, ok := loop.Init.(*ast.AssignStmt)
+	if !ok || as.Tok != token.DEFINE || len(as.Lhs) != 1 || len(as.Rhs) != 1 {
+		refuse("%s: %s: loop init not `i := 0`", pos(loop), name)
+	}
+	iv := as.Lhs[0].(*ast.Ident).Name
+	if l, ok := as.Rhs[0].(*ast.BasicLit); !ok || l.Value != "0" {
+		refuse("%s: %s: loop init not `i := 0`", pos(loop), name)
+	}
+	be, ok := loop.Cond.(*ast.BinaryExpr)
+	if !ok || be.Op != token.LSS {
+		refuse("%s: %s: loop cond not `i < N`", pos(loop), name)
+	}
+	if id, ok := be.X.(*ast.Ident); !ok || id.Name != iv {
+		refuse("%s: %s: loop cond not `i < N`", pos(loop), name)
+	}
+	if id, ok := be.Y.(*ast.Ident); !ok || id.Name != lenVar {
+		refuse("%s: %s: loop bound is not the length of the output slice", pos(loop), name)
+	}
+	inc, ok := loop.Post.(*ast.IncDecStmt)
+	if !ok || inc.Tok != token.INC {
+		refuse("%s: %s: loop post not `i++`", pos(loop), name)
+	}
+	if id, ok := inc.X.(*ast.Ident); !ok || id.Name != iv {
+		refuse("%s: %s: loop post not `i++`", pos(loop), name)
+	}
+	if iv == outv || iv == lenVar || iv == errv {
+		refuse("%s: %s: loop variable shadows", pos(loop), name)
+	}
+	// body: scalar assignments (each variable written before it is read), then out[i] = e
+	stmts := loop.Body.List
+	if len(stmts) == 0 {
+		refuse("%s: %s: empty loop body", pos(loop), name)
+	}
+	var bodyVars []string
+	assigned(stmts[:len(stmts)-1], &bodyVars, map[string]bool{}, map[string]bool{})
+	isBodyVar := map[string]bool{}
+	for _, v := range bodyVars {
+		isBodyVar[v] = true
+	}
+	written := map[string]bool{}
+	inner := ""
+	const isep = "\n    "
+	for _, s := range stmts[:len(stmts)-1] {
+		x, ok := s.(*ast.AssignStmt)
+		if !ok || (x.Tok != token.ASSIGN && x.Tok != token.DEFINE) || len(x.Lhs) != 1 || len(x.Rhs) != 1 {
+			refuse("%s: %s: loop body statement must be `x = e`", pos(s), name)
+		}
+		id, ok := x.Lhs[0].(*ast.Ident)
+		if !ok || id.Name == iv || id.Name == lenVar || id.Name == outv || id.Name == errv {
+			refuse("%s: %s: loop body assignment target", pos(s), name)
+		}
+		for _, p := range ps {
+			if p.name == id.Name {
+				refuse("%s: %s: parameter %s assigned in the loop", pos(s), name, p.name)
+			}
+		}
+		if usesIdent(x.Rhs[0], outv) || usesIdent(x.Rhs[0], errv) {
+			refuse("%s: %s: output slice read in the loop", pos(s), name)
+		}
+		for v := range isBodyVar {
+			if !written[v] && usesIdent(x.Rhs[0], v) {
+				refuse("%s: %s: %s is read before it is written in the loop body (loop-carried value)", pos(s), name, v)
+			}
+		}
+		inner += c.assign(x, isep)
+		written[id.Name] = true
+	}
+	last, ok := stmts[len(stmts)-1].(*ast.AssignStmt)
+	if !ok || last.Tok != token.ASSIGN || len(last.Lhs) != 1 || len(last.Rhs) != 1 {
+		refuse("%s: %s: last loop statement must be `out[i] = e`", pos(loop), name)
+	}
+	ix, ok := last.Lhs[0].(*ast.IndexExpr)
+	if !ok {
+		refuse("%s: %s: last loop statement must be `out[i] = e`", pos(loop), name)
+	}
+	if b, ok := ix.X.(*ast.Ident); !ok || b.Name != outv {
+		refuse("%s: %s: last loop statement must be `out[i] = e`", pos(loop), name)
+	}
+	if k, ok := ix.Index.(*ast.Ident); !ok || k.Name != iv {
+		refuse("%s: %s: last loop statement must be `out[i] = e`", pos(loop), name)
+	}
+	if usesIdent(last.Rhs[0], outv) || usesIdent(last.Rhs[0], errv) {
+		refuse("%s: %s: output slice read in the loop", pos(loop), name)
+	}
+	for v := range isBodyVar {
+		if !written[v] && usesIdent(last.Rhs[0], v) {
+			refuse("%s: %s: %s read before written", pos(loop), name, v)
+		}
+	}
+	inner += c.expr(last.Rhs[0])
+	body += "some ((List.range " + ident(lenVar) + ").map fun " + ident(iv) + " =>" + isep + inner + ")"
+	return fmt.Sprintf("def %s%s : Option (List Nat) :=\n  %s\n", name, leanParams(ps), body)
+}
+
+// checkBitReverse64 ties the primitive `bitRev64` of Lattigo/Word.lean to utils/utils.go: the body of
+// utils.BitReverse64 must be exactly `return bits.Reverse64(uint64(index)) >> (64 - bitLen)`.
+func checkBitReverse64(file *ast.File) {
+	for _, fd := range funcsOf(file) {
+		if fd.Name.Name != "BitReverse64" {
+			continue
+		}
+		bad := func() { refuse("%s: utils.BitReverse64 is not `return bits.Reverse64(uint64(index)) >> (64 - bitLen)`", pos(fd)) }
+		ps := fd.Type.Params.List
+		if len(ps) != 2 || len(ps[0].Names) != 1 || len(ps[1].Names) != 1 || fd.Body == nil || len(fd.Body.List) != 1 {
+			bad()
+		}
+		if t, ok := ps[1].Type.(*ast.Ident); !ok || t.Name != "int" {
+			bad()
+		}
+		if fd.Type.Results == nil || len(fd.Type.Results.List) != 1 {
+			bad()
+		}
+		if t, ok := fd.Type.Results.List[0].Type.(*ast.Ident); !ok || t.Name != "uint64" {
+			bad()
+		}
+		x, n := ps[0].Names[0].Name, ps[1].Names[0].Name
+		r, ok := fd.Body.List[0].(*ast.ReturnStmt)
+		if !ok || len(r.Results) != 1 {
+			bad()
+		}
+		c := &ctx{known: map[string]fnInfo{}, pairs: map[string]bool{}, windows: map[string]string{}}
+		// print with the ordinary expression printer, bits.Reverse64 being the primitive reverse64
+		sh, ok := r.Results[0].(*ast.BinaryExpr)
+		if !ok || sh.Op != token.SHR {
+			bad()
+		}
+		call, ok := sh.X.(*ast.CallExpr)
+		if !ok || len(call.Args) != 1 {
+			bad()
+		}
+		if sel, ok := call.Fun.(*ast.SelectorExpr); !ok || sel.Sel.Name != "Reverse64" {
+			bad()
+		} else if p, ok := sel.X.(*ast.Ident); !ok || p.Name != "bits" {
+			bad()
+		}
+		got := "(u64shr (reverse64 " + c.expr(call.Args[0]) + ") " + c.expr(sh.Y) + ")"
+		want := "(u64shr (reverse64 " + ident(x) + ") (u64sub 64 " + ident(n) + "))"
+		if got != want {
+			bad()
+		}
+		return
+	}
+	refuse("utils/utils.go: BitReverse64 not found")
+}
+
 // ---- constants ----
 
 func constInt(file *ast.File, name string) (string, bool) {
@@ -969,14 +1573,68 @@ func main() {
 		}
 		sb.WriteString(strconv.Quote(m.Name))
 	}
+	sb.WriteString("]\n\n")
+	sb.WriteString("/-- (kernel, its slice parameters in order, the slice all 8 statements of its loop body write) -/\n")
+	sb.WriteString("def kernelSigs : List (String × List String × String) := [\n")
+	for i, m := range metas {
+		if i > 0 {
+			sb.WriteString(",\n")
+		}
+		var sl []string
+		for _, p := range m.Params {
+			if strings.HasSuffix(p, ":slice") {
+				sl = append(sl, strings.TrimSuffix(p, ":slice"))
+			}
+		}
+		fmt.Fprintf(&sb, "  (%s, %s, %s)", strconv.Quote(m.Name), leanStrList(sl), strconv.Quote(m.Out))
+	}
 	sb.WriteString("]\n\nend Lattigo.Gen\n")
 	must(os.WriteFile(filepath.Join(*out, "VecLanes.lean"), []byte("import Lattigo.Gen.ModRed\n"+sb.String()), 0o644))
 	summary["kernels"] = metas
 	summary["vecops_sha256"] = hash(voPath)
 
+	// 4. SubRing wrappers of subring_ops.go
+	soPath := filepath.Join(*repo, "ring/subring_ops.go")
+	so := parse(soPath)
+	kmap := map[string]kernelMeta{}
+	for _, m := range metas {
+		kmap[m.Name] = m
+	}
+	sb.Reset()
+	fmt.Fprintf(&sb, header, "ring/subring_ops.go")
+	wtxt, wmetas, delegates := translateSubRingOps(so, kmap)
+	sb.WriteString(wtxt)
+	sb.WriteString("end Lattigo.Gen\n")
+	must(os.WriteFile(filepath.Join(*out, "SubRingOps.lean"), []byte("import Lattigo.Gen.VecLanes\n"+sb.String()), 0o644))
+	summary["subring_wrappers"] = wmetas
+	summary["subring_delegates"] = delegates
+	summary["subringops_sha256"] = hash(soPath)
+
+	// 5. AutomorphismNTTIndex of automorphism.go (+ the definition of utils.BitReverse64 it relies on)
+	auPath := filepath.Join(*repo, "ring/automorphism.go")
+	au := parse(auPath)
+	sb.Reset()
+	fmt.Fprintf(&sb, header, "ring/automorphism.go (AutomorphismNTTIndex)")
+	foundAut := false
+	for _, fd := range funcsOf(au) {
+		if fd.Name.Name == "AutomorphismNTTIndex" {
+			sb.WriteString(translateTabulate(fd, known) + "\n")
+			foundAut = true
+		}
+	}
+	if !foundAut {
+		refuse("ring/automorphism.go: AutomorphismNTTIndex not found")
+	}
+	sb.WriteString("end Lattigo.Gen\n")
+	must(os.WriteFile(filepath.Join(*out, "Automorphism.lean"), []byte(sb.String()), 0o644))
+	utPath := filepath.Join(*repo, "utils/utils.go")
+	checkBitReverse64(parse(utPath))
+	summary["automorphism_sha256"] = hash(auPath)
+	summary["utils_sha256"] = hash(utPath)
+
 	b, _ := json.MarshalIndent(summary, "", " ")
 	must(os.WriteFile(filepath.Join(*out, "gen_summary.json"), b, 0o644))
-	fmt.Printf("go2lean: %d scalar functions, 2 butterflies, %d kernels\n", len(names), len(metas))
+	fmt.Printf("go2lean: %d scalar functions, 2 butterflies, %d kernels, %d SubRing wrappers (+%d NTT delegations), AutomorphismNTTIndex\n", len(names), len(metas), len(wmetas), len(delegates))
 }
 
 func must(err error) {
